@@ -185,7 +185,7 @@ def universe(tier):
     """Yields (family, play encoding); deterministic; no repetitions (families may overlap: the first occurrence
     counts); every play has reference status 'ok'."""
     seen = set()
-    for fam, pe in itertools.chain(_universe_raw(tier), zoo_universe(tier), more_universe(tier)):
+    for fam, pe in itertools.chain(_universe_raw(tier), zoo_universe(tier), more_universe(tier), glue_universe(tier)):
         key = hashlib.blake2b(m.fp(pe).encode(), digest_size=10).digest()
         if key in seen:
             continue
@@ -364,6 +364,87 @@ def more_universe(tier):
         yield "N4", wrap(list(zip(TKEYS, vs)))
 
 
+# ---- round 3: control characters glued to hex / octal digits; plays with shared containers ---------------
+
+HEXD = "0123456789abcdefABCDEF"
+CTRL = [chr(c) for c in list(range(0x00, 0x20)) + [0x7f] + list(range(0x80, 0xa0))]
+
+
+def glue_strings(full=True):
+    """Strings a sloppy (unpadded / not self-delimiting) escape could merge: every single character of the first 256
+    (all two-digit codes), every control character followed by a hex digit, control characters followed by two
+    digits (octal and \\u style) together with the single characters those could be mistaken for."""
+    out = [chr(c) for c in range(256)]
+    if full:
+        out += [c + h for c in CTRL for h in HEXD]
+        two = ["00", "0a", "a0", "ff", "FF", "11", "17", "71", "77", "01", "10", "07", "70"]
+        out += [c + t for c in CTRL for t in two]
+        out += [chr(int("%x%s" % (ord(c), t), 16)) for c in CTRL for t in two]
+        out += [chr(int("%o%s" % (ord(c), t), 8)) for c in CTRL[:32] for t in ("11", "17", "71", "77", "01", "10", "07", "70")
+                if int("%o%s" % (ord(c), t), 8) < 0x110000]
+    else:
+        out += [c + h for c in CTRL[:33] for h in HEXD[:16]]
+    seen, uniq = set(), []
+    for t in out:
+        if t not in seen and not (0xd800 <= ord(t[0]) <= 0xdfff):
+            seen.add(t)
+            uniq.append(t)
+    return uniq
+
+
+def glue_universe(tier):
+    for t in glue_strings(True):
+        yield "G", wrap([(S("k"), S(t))])
+    for t in glue_strings(tier == "thorough"):
+        yield "G", wrap([(S(t), S("x"))])
+        yield "G", wrap([(S("k"), L(S(t)))])
+
+
+def DEF(name, v):
+    return ["def", name, v]
+
+
+def REF(name):
+    return ["ref", name]
+
+
+A_VALUES = [M((S("c"), I(1))), L(I(1))]
+B_VALUES = [M((S("c"), I(2))), L(I(2)), M((S("c"), I(1))), M((S("i"), REF("A"))), L(REF("A"))]
+SITES = ["A", "B", "copyA", "copyB", "scalar"]
+PLACEMENTS = ["value", "in-list", "in-mapping"]
+DEF_PLACES = ["top", "vars"]
+
+
+def shared_plays(def_place, placement, mode):
+    """ALL plays with two named containers A and B (B possibly containing A) and one or two later sites that hold the
+    same object as A, the same object as B, an equal copy of either, or a scalar.  Retargeting / re-nesting an alias
+    and expanding it are edits between members of this set."""
+    done = set()
+    for va in A_VALUES:
+        for vb in B_VALUES:
+            copies = {"copyA": va, "copyB": m.expand(M((S("a"), DEF("A", va)), (S("b"), vb)))[1][1][1], "scalar": I(0),
+                      "A": REF("A"), "B": REF("B")}
+            for s1 in SITES:
+                for s2 in [None] + SITES:
+                    def put(site):
+                        v = copies[site]
+                        if placement == "in-list":
+                            return L(v)
+                        if placement == "in-mapping":
+                            return M((S("r"), v))
+                        return v
+                    defs = [(S("a"), DEF("A", va)), (S("b"), DEF("B", vb))]
+                    sites = [(S("s1"), put(s1))] + ([] if s2 is None else [(S("s2"), put(s2))])
+                    if def_place == "top":
+                        se = wrap(defs + sites)
+                    else:
+                        se = wrap(sites, vafter=defs, pos="after")
+                    key = m.fp(se)
+                    if key not in done:                      # equal copies of A and B give the same play twice
+                        done.add(key)
+                        yield {"senc": se, "mode": mode}
+
+
 def container_of(idx):
     return "odict" if idx % 2 else "dict"
 
@@ -448,6 +529,10 @@ def yaml_special_texts():
 
 
 def yaml_zoo_plays():
+    for c in range(0x10):                      # glue pairs through the loader as well
+        for h in "0bf":
+            yield {"enc": wrap([(S("k"), S(chr(c) + h))]), "mode": "yaml-flow"}
+            yield {"enc": wrap([(S(chr(c) + h), S("x"))]), "mode": "yaml-flow"}
     for z in zoo_scalars(True):
         for style in ("yaml-flow", "yaml-block"):
             yield {"enc": wrap([(S("k"), z)]), "mode": style}
@@ -592,6 +677,21 @@ def build(src):
     if "yamltext" in src:
         obj = pv().load_playbook_yaml(src["yamltext"])[0]
         return obj, m.enc(obj)
+    if "senc" in src:                          # encoding with shared containers (def / ref nodes)
+        se = src["senc"]
+        pe = m.expand(se)
+        mode = src.get("mode", "dict")
+        if mode == "dict":
+            return m.dec_shared(se, dict), pe
+        if mode == "odict":
+            return m.dec_shared(se, collections.OrderedDict), pe
+        text = m.to_yaml(se, "flow" if mode == "yaml-flow" else "block")
+        obj = pv().load_playbook_yaml(text)[0]
+        if m.fp_obj(obj) != m.fp(pe):
+            raise RuntimeError("harness: YAML rendering does not load back to the intended play: %r" % (text,))
+        if _has_ref(se) and not shares_containers(obj):
+            raise RuntimeError("harness: aliases did not load as shared objects: %r" % (text,))
+        return obj, pe
     pe = src["enc"]
     mode = src.get("mode", "dict")
     if mode == "dict":
@@ -720,6 +820,26 @@ def _unshared_twin_ok(pe, ref):
     except ValueError:
         return False
     return twin[0] == "ok" and m.fp_obj(twin[3]) == m.fp(ref[2])
+
+
+def _has_ref(e):
+    if e[0] == "ref":
+        return True
+    if e[0] == "def":
+        return _has_ref(e[2])
+    if e[0] == "l":
+        return any(_has_ref(v) for v in e[1])
+    if e[0] == "m":
+        return any(_has_ref(v) for _, v in e[1])
+    return False
+
+
+def _unshared_twins_differ(encs):
+    try:
+        a, b = pipeline(m.dec(encs[0], dict)), pipeline(m.dec(encs[1], dict))
+    except ValueError:
+        return False
+    return a[0] == "ok" and b[0] == "ok" and a[1] != b[1]
 
 
 def digest_of_remainder(rem_e):
@@ -992,9 +1112,17 @@ def check_pair(case):
     fa, fb = m.fp(refs[0][2]), m.fp(refs[1][2])
     da, db = runs[0][1], runs[1][1]
     if fa != fb and da == db:
-        if (shares_containers(objs[0]) or shares_containers(objs[1])) and \
-                _unshared_twin_ok(encs[0], refs[0]) and _unshared_twin_ok(encs[1], refs[1]):
+        shared = shares_containers(objs[0]) or shares_containers(objs[1])
+        twins_ok = shared and _unshared_twin_ok(encs[0], refs[0]) and _unshared_twin_ok(encs[1], refs[1])
+        lost = any(m.fp_obj(run[3]) != m.fp(ref[2]) for run, ref in zip(runs, refs))
+        if twins_ok and lost:
+            # the known family, narrowly: the exclusion itself removed more than the excluded element (a child deleted
+            # from a node that is shared with a signed place)
             feats = dict(ALIASING)
+        elif twins_ok and _unshared_twins_differ(encs):
+            # the exclusion was exact, the plays without sharing are told apart: the way a shared container is
+            # written is the cause (e.g. a later occurrence written as a marker that does not name its target)
+            feats = {"aliasing": "shared_container_occurrence_not_covered"}
         else:
             feats = loader_cause_pair(objs) or m.classify_collision(refs[0][2], refs[1][2], digest_of_remainder)
         out.append(("digest:injective", "different digests: the signed parts differ",
@@ -1185,6 +1313,8 @@ def units(tier, seed):
     us += [{"part": "excl-gen", "mode": md} for md in ("dict", "yaml-flow")]
     us += [{"part": "order", "index": i} for i in range(len(order_pairs()))]
     us += [{"part": "hist", "base": bi} for bi in range(len(H_BASES))]
+    us += [{"part": "shared", "defs": d, "placement": pl, "mode": md}
+           for d in DEF_PLACES for pl in PLACEMENTS for md in ("dict", "yaml-flow")]
     return us
 
 
@@ -1408,6 +1538,46 @@ def _run_yaml(srcs, res, label):
     res.notes = sorted(set(res.notes))
 
 
+def _run_shared(srcs, res):
+    """Plays with shared containers, grouped by digest inside the unit (all retargeting / re-nesting / expanding
+    edits of one skeleton are in one unit)."""
+    groups, by_fp = {}, {}
+    for src in srcs:
+        obj, pe = build(src)
+        run = pipeline(obj)
+        res.evals += 1
+        ref = m.ref_exclusion(pe)
+        if ref[0] != "ok":
+            raise RuntimeError("harness: shared-container play without reference status ok: %r" % (src,))
+        vio = check_single(src, obj, pe, run)
+        if vio:
+            _emit(res, vio, {"kind": "single", "play": src})
+        if run[0] != "ok":
+            continue
+        f = m.fp(ref[2])
+        g = groups.get(run[1])
+        if g is None:
+            groups[run[1]] = [(f, src)]
+        elif all(x != f for x, _ in g):
+            case = {"kind": "pair", "p": g[0][1], "q": src}
+            _emit(res, check_pair(case), case)
+            g.append((f, src))
+            res.outcomes.add("shared:same-digest-different-content")
+        by_fp.setdefault(f, set()).add(run[1])
+    # control, observed only (the statement does not say whether an alias and its expansion digest alike)
+    for f, ds in by_fp.items():
+        if len(ds) == 1:
+            res.stat("shared_content_classes_with_one_digest")
+        else:
+            res.stat("shared_content_classes_with_several_digests")
+    res.nontrivial += sum(1 for src in srcs if _has_ref(src["senc"]))
+    res.outcomes.add("shared:alias-and-expansion-%s" % ("same-digest" if not res.stats.get(
+        "shared_content_classes_with_several_digests") else "differ"))
+    res.stat("shared_plays", len(srcs))
+    res.stat("shared_distinct_contents", len(by_fp))
+    res.samples.append({"kind": "single", "play": srcs[len(srcs) // 2]})
+
+
 def run_unit(unit, tier):
     res = Result()
     part = unit["part"]
@@ -1423,6 +1593,8 @@ def run_unit(unit, tier):
         res.samples.append({"kind": "single", "play": srcs[0]})
     elif part == "yaml-pairs":
         _run_yaml(list(yaml_pair_plays(unit["shard"], unit["of"])), res, "yaml-pairs")
+    elif part == "shared":
+        _run_shared(list(shared_plays(unit["defs"], unit["placement"], unit["mode"])), res)
     elif part == "yaml-zoo":
         _run_yaml(list(yaml_zoo_plays()), res, "yaml-zoo")
     elif part == "yaml-special":
